@@ -36,10 +36,12 @@ def gen_job(rnd):
     def op():
         clock[0] += rnd.choice([0, 1, 5])
         k = rnd.random()
+        # a quarter of the time stamps lie in the PAST (restored backup, checkout of an older file, clock skew)
+        t = clock[0] if rnd.random() < 0.75 else clock[0] - rnd.choice([1, 5, 100, 900])
         if k < 0.35:
-            return ["write", rnd_path(rnd), rnd.randint(0, 3), clock[0]]
+            return ["write", rnd_path(rnd), rnd.randint(0, 3), t]
         if k < 0.5:
-            return ["touch", rnd_path(rnd), clock[0]]
+            return ["touch", rnd_path(rnd), t]
         if k < 0.65:
             return ["rm", rnd_path(rnd)]
         if k < 0.75:
@@ -119,7 +121,7 @@ def run(out: common.Outcome):
     corr.finish_incoq("C18")
     model.close()
     out.coverage["rule"] = ("sequences of polls over a real temporary directory with create/modify/touch/delete/rename/mkdir/rmdir operations, hidden and "
-                            ".pyc names, explicit mtimes (os.utime), root sets single / several / nested / duplicated / missing; "
+                            ".pyc names, explicit mtimes (os.utime; a quarter of them in the past), root sets single / several / nested / duplicated / missing; "
                             "non-trivial = at least one poll reported a change")
     out.assumptions += ["os.walk / stat / pathlib semantics without symlinks; the stat race branch (file vanishing between walk and stat) is not exercised",
                         "the file-system snapshot handed to the model is taken by the harness"]
